@@ -10,7 +10,7 @@ import rxworld
 import streams
 from common import hx
 
-ASSUMPTIONS = ["the upper-layer handler does not re-enter the protocol object"]
+ASSUMPTIONS = ["the upper-layer handler does not re-enter the protocol object, except that it may close it (as ZBOSS.close() does)"]
 
 
 def expected_log(offline_ans, transport=True):
@@ -38,7 +38,59 @@ def flat(outs):
     return r
 
 
+def handler_behaviours(ctx):
+    """Several data frames in one read while the upper layer (a) is cancelled inside a hand-up - `CancelledError` is not
+    an `Exception`, it leaves the receive entry point - or (b) closes the port from inside a hand-up.  Whatever happens,
+    no frame may be handed up without its own acknowledgement written just before, and in case (a) the frames behind the
+    interrupted one are still acknowledged and handed up, once each, when the receiver is entered again."""
+    r = ctx.rng
+    for k in range(ctx.scale(60, 600)):
+        n = r.randrange(2, 6)
+        seqs = [r.randrange(0, 4) for _ in range(n)]
+        frames = [streams.command_frame(r, seq=q) for q in seqs]
+        s = b"".join(frames)
+        j = r.randrange(0, n)
+        kind = "cancelled" if k % 2 == 0 else "closes"
+        p, log = rxworld.make(0, True, False, (), reset_flag=(k % 4 == 3))
+        if kind == "cancelled":
+            p._verif_api.base_raise_at = {j}
+        else:
+            p._verif_api.close_at = {j}
+        # (b): all frames in the read in which the port is closed - a closed port acknowledges nothing in later reads
+        cut = r.randrange(0, len(s) + 1) if (r.random() < 0.5 and kind == "cancelled") else len(s)
+        raised = []
+        for chunk in (s[:cut], s[cut:], b"", b""):
+            try:
+                p.data_received(chunk)
+            except BaseException as ex:  # noqa
+                raised.append(type(ex).__name__)
+        inp = dict(frames=[hx(f) for f in frames], sequence_numbers=seqs, handler=kind, at_frame=j, first_read=cut)
+        ctx.case(("handler", s, j, kind, cut), nontrivial=True, sample=dict(inp, log=[x[:30] for x in log[:8]], raised=raised))
+        ctx.count("handler-" + kind)
+        bad = None
+        for i, x in enumerate(log):
+            if x.startswith("D"):
+                ll = int(x.split(" ")[0][4:])
+                want = "W" + hx(streams.ack((ll >> 42) & 3))
+                if i == 0 or log[i - 1] != want:
+                    bad = ("ack-missing-or-wrong", want, log[i - 1][:40] if i else None,
+                           "a frame was handed up without its own acknowledgement written just before")
+                    break
+        nd = sum(1 for x in log if x.startswith("D"))
+        if bad is None and kind == "cancelled":
+            if any(e != "CancelledError" for e in raised):
+                bad = ("rx-raised", "only the cancellation propagates", raised, "data_received raised something else than the cancellation")
+            elif nd != n:
+                bad = ("frames-lost-after-cancellation", "%d frames acknowledged and handed up" % n, "%d" % nd,
+                       "frames that were in the same read as a cancelled hand-up were consumed but never acknowledged / handed up")
+        if bad is None and kind == "closes" and raised:
+            bad = ("rx-raised", "no exception", raised, "data_received raised after the handler closed the port")
+        if bad:
+            ctx.counterexample(bad[0], inp, bad[1], bad[2], bad[3])
+
+
 def run(ctx):
+    handler_behaviours(ctx)
     r = ctx.rng
     ctx.rule = ("streams as in C01 biased to data frames of every sequence number / flag combination, duplicates "
                 "(retransmissions), ACKs and corrupted frames, under whole / byte-wise / single-cut / random chunkings, "
